@@ -47,12 +47,17 @@
     C09_fullname_attribute_iff    attributes, exact boundary: an Ok answer is wrong iff the name is in a real
                                   namespace and the EMPTY prefix is reported; C09_fullname_attribute_guard_not_needed:
                                   the guard of _attribute_partial is sufficient, not necessary (closed witness)
+    C09_prefix_first              WHICH prefix: for a real namespace, the prefix of the first pair that
+                                  namespaces_in_scope yields with that namespace
+    C09_fullname_attribute_boundary   input-level boundary of the attribute finding: misreported iff the first
+                                  pair namespaces_in_scope yields with the attribute's namespace is the default prefix
 -/
 import XotModel.Lemmas.Scope
 import XotModel.Lemmas.ScopeStack
 import XotModel.Lemmas.ScopeWalk
 import XotModel.Lemmas.ScopeSerialise
 import XotModel.Lemmas.ScopeUnres
+import XotModel.Lemmas.ScopeFirst
 
 namespace XotModel.Props
 open XotModel
@@ -522,6 +527,43 @@ theorem C09_fullname_attribute_guard_not_needed :
     [.node (.attribute 0 []) [],
      .node (.element 0) [.node (.namespace 2 2) [], .node (.namespace 0 2) [], .node (.attribute 0 []) []]],
     0, 2, by rfl, by decide, by decide⟩
+
+/-- WHICH prefix `prefix_for_namespace` reports for a real namespace: the prefix of the first pair
+    `namespaces_in_scope(node)` yields with that namespace (nearest element first, declaration
+    order within an element, shadowed declarations skipped). -/
+theorem C09_prefix_first (t : Tree) (path : Path) (ns : Nat) (hns : ns ≠ Env.noNamespace)
+    (l : List (Nat × Nat)) (h : namespacesInScope t path = some l) :
+    prefixForNamespace t path ns = some ((l.find? (fun kv => kv.2 == ns)).map Prod.fst) := by
+  simp only [namespacesInScope, Option.map_eq_some_iff] at h
+  obtain ⟨chain, hc, rfl⟩ := h
+  simp [prefixForNamespace, hc, prefixForNamespaceChain_eq_find chain ns hns]
+
+/-- The attribute finding at input level: an attribute name in a real namespace gets an `Ok`
+    answer that does not resolve back iff the FIRST pair `namespaces_in_scope` yields with its
+    namespace is the default prefix. -/
+theorem C09_fullname_attribute_boundary (env : Env) (chain : List Tree) (name : Nat)
+    (hns : env.nsOfName name ≠ Env.noNamespace) :
+    (∃ p, nameRefChain env chain name = .ok p ∧
+        resolveQName chain true p ≠ some (env.nsOfName name)) ↔
+      ((namespacesInScopeChain chain).find? (fun kv => kv.2 == env.nsOfName name)).map Prod.fst =
+        some Env.emptyPrefix := by
+  rw [← prefixForNamespaceChain_eq_find chain _ hns]
+  have hb : (env.nsOfName name != Env.noNamespace) = true := by simpa [bne] using hns
+  constructor
+  · rintro ⟨p, hp, hr⟩
+    have hp0 : p = Env.emptyPrefix := by
+      by_cases hp0 : p = Env.emptyPrefix
+      · exact hp0
+      · exact absurd ((C09_fullname_attribute_iff env chain name p hp).2 (fun h => hp0 h.2)) hr
+    subst hp0
+    simp only [nameRefChain, hb, ↓reduceIte] at hp
+    cases hq : prefixForNamespaceChain chain (env.nsOfName name) with
+    | none => simp [hq] at hp
+    | some q => simp only [hq, Except.ok.injEq] at hp; rw [hp]
+  · intro h
+    refine ⟨Env.emptyPrefix, by simp [nameRefChain, hb, h], ?_⟩
+    simp only [resolveQName, beq_self_eq_true, ↓reduceIte, ne_eq, Option.some.injEq]
+    exact fun h0 => hns h0.symm
 
 /-! ### Non-vacuity -/
 
